@@ -295,7 +295,7 @@ pub fn oracle(c: &Case, probe: &mut Probe) -> Result<(), Fail> {
     }
 }
 
-fn strategy(max_size: usize) -> BoxedStrategy<Case> {
+pub fn strategy(max_size: usize) -> BoxedStrategy<Case> {
     prop_oneof![
         2 => (0u8..5, prop_oneof![4 => 0usize..=20, 3 => 0usize..=max_size, 1 => prop::sample::select(vec![255usize, 256, 257, 1023, 1024, 1025, 4095, 4096, 4097, 5000])], any::<u64>(), any::<bool>())
             .prop_map(|(kind, size, seed, borrowed)| Case::Collection { kind, size, seed, borrowed }),
